@@ -51,9 +51,15 @@ func (w *WaterMark) Init(closer *Closer) {
 
 // Begin sets the last index to the given value.
 func (w *WaterMark) Begin(index uint64) {
-	w.setLastIndex(index)
+	w.mu.Lock()
+	// Register the pending count before the index becomes visible through
+	// lastIndex: an advance only looks at indices up to lastIndex, so it can
+	// never pass an index whose count has not been recorded yet.
+	w.addIndexLocked(index, 1)
 	VerifYield("wm.begin.after-last")
-	w.addIndex(index, 1)
+	w.setLastIndex(index)
+	w.advanceLocked()
+	w.mu.Unlock()
 }
 
 // BeginMany works like Begin but accepts multiple indices.
@@ -61,23 +67,32 @@ func (w *WaterMark) BeginMany(indices []uint64) {
 	if len(indices) == 0 {
 		return
 	}
-	w.setLastIndex(indices[len(indices)-1])
-	VerifYield("wm.beginmany.after-last")
+	w.mu.Lock()
 	for _, idx := range indices {
-		w.addIndex(idx, 1)
+		w.addIndexLocked(idx, 1)
 	}
+	VerifYield("wm.beginmany.after-last")
+	w.setLastIndex(indices[len(indices)-1])
+	w.advanceLocked()
+	w.mu.Unlock()
 }
 
 // Done sets a single index as done.
 func (w *WaterMark) Done(index uint64) {
-	w.addIndex(index, -1)
+	w.mu.Lock()
+	w.addIndexLocked(index, -1)
+	w.advanceLocked()
+	w.mu.Unlock()
 }
 
 // DoneMany works like Done but accepts multiple indices.
 func (w *WaterMark) DoneMany(indices []uint64) {
+	w.mu.Lock()
 	for _, idx := range indices {
-		w.addIndex(idx, -1)
+		w.addIndexLocked(idx, -1)
 	}
+	w.advanceLocked()
+	w.mu.Unlock()
 }
 
 // DoneUntil returns the maximum index that has the property that all indices
@@ -89,8 +104,8 @@ func (w *WaterMark) DoneUntil() uint64 {
 // SetDoneUntil sets the maximum index that has the property that all indices
 // less than or equal to it are done.
 func (w *WaterMark) SetDoneUntil(val uint64) {
-	prev := atomic.SwapUint64(&w.doneUntil, val)
 	w.mu.Lock()
+	prev := atomic.SwapUint64(&w.doneUntil, val)
 	w.notifyWaitersLocked(prev, val)
 	w.mu.Unlock()
 }
@@ -131,18 +146,22 @@ func (w *WaterMark) WaitForMark(ctx context.Context, index uint64) error {
 	}
 }
 
-func (w *WaterMark) addIndex(index uint64, delta int32) {
+// addIndexLocked adjusts the pending count of index; caller must hold w.mu.
+// Counts, window rebuilds and advances are serialized by w.mu: a count can
+// neither be added to a window that a concurrent rebuild has already copied,
+// nor change between an advance's check of it and the publication of the new
+// doneUntil.
+func (w *WaterMark) addIndexLocked(index uint64, delta int32) {
 	if index == 0 {
 		return
 	}
-	win := w.ensureWindow(index)
+	win := w.ensureWindowLocked(index)
 	VerifYield("wm.add.after-window")
 	offset := index - win.base
 	if offset < uint64(len(win.slots)) {
 		win.slots[offset].Add(delta)
 	}
 	VerifYield("wm.add.after-slot")
-	w.tryAdvance()
 }
 
 func (w *WaterMark) setLastIndex(index uint64) {
@@ -157,28 +176,28 @@ func (w *WaterMark) setLastIndex(index uint64) {
 	}
 }
 
-func (w *WaterMark) tryAdvance() {
+// advanceLocked moves doneUntil over every finished index up to lastIndex and
+// wakes the waiters it satisfied; caller must hold w.mu.
+func (w *WaterMark) advanceLocked() {
+	prev := w.DoneUntil()
+	until := prev
 	for {
-		doneUntil := w.DoneUntil()
 		lastIndex := w.LastIndex()
-		if doneUntil >= lastIndex {
-			return
+		if until >= lastIndex {
+			break
 		}
-		next := doneUntil + 1
-		win := w.loadWindow()
-		if next < win.base || next >= win.base+uint64(len(win.slots)) {
-			w.ensureWindow(next)
-			continue
-		}
+		next := until + 1
+		win := w.ensureWindowLocked(next)
 		offset := next - win.base
-		if win.slots[offset].Load() > 0 {
-			return
+		if offset < uint64(len(win.slots)) && win.slots[offset].Load() > 0 {
+			break
 		}
 		VerifYield("wm.advance.before-cas")
-		if atomic.CompareAndSwapUint64(&w.doneUntil, doneUntil, next) {
-			w.notifyWaiters(doneUntil, next)
-			continue
-		}
+		until = next
+		atomic.StoreUint64(&w.doneUntil, until)
+	}
+	if until != prev {
+		w.notifyWaitersLocked(prev, until)
 	}
 }
 
@@ -192,20 +211,9 @@ func (w *WaterMark) notifyWaitersLocked(_ uint64, until uint64) {
 	}
 }
 
-func (w *WaterMark) notifyWaiters(prev, until uint64) {
-	w.mu.Lock()
-	w.notifyWaitersLocked(prev, until)
-	w.mu.Unlock()
-}
-
-func (w *WaterMark) ensureWindow(index uint64) *watermarkWindow {
+// ensureWindowLocked returns a window covering index; caller must hold w.mu.
+func (w *WaterMark) ensureWindowLocked(index uint64) *watermarkWindow {
 	win := w.loadWindow()
-	if index >= win.base && index < win.base+uint64(len(win.slots)) {
-		return win
-	}
-	w.mu.Lock()
-	defer w.mu.Unlock()
-	win = w.loadWindow()
 	if index >= win.base && index < win.base+uint64(len(win.slots)) {
 		return win
 	}
